@@ -633,7 +633,10 @@ class Executor:
         return outs
 
     def s_Try(self, node, state):
+        base_len = len(state.pc)
         outs = self.block(node.body, state)
+        if len(outs) > 3:
+            outs = merge_outcomes(outs, base_len)
         result = []
         for o in outs:
             if o.kind == 'raise':
@@ -667,6 +670,8 @@ class Executor:
             else:
                 result.append(o)
         if node.finalbody:
+            if len(result) > 3:
+                result = merge_outcomes(result, base_len)
             final = []
             for o in result:
                 fo = self.block(node.finalbody, o.state)
@@ -700,6 +705,16 @@ class Executor:
                         r = root_name(a) if a is not None else None
                         if r:
                             mutated.add(r)
+                if kind == 'method' and isinstance(n.func, ast.Attribute):
+                    # a contracted method that mutates its receiver (mutates=['self']) modifies
+                    # the object the receiver expression is rooted in
+                    for (cls_, mname), mc in ctx.registry.methods.items():
+                        if mname == name and 'self' in mc.mutates:
+                            r = root_name(n.func.value)
+                            if r:
+                                mutated.add(r)
+                if c is not None:
+                    pass
                 elif ctx.lenient and kind in ('qualified', 'method', 'builtin') and \
                         not (kind == 'builtin' and name in prims.BUILTINS):
                     from . import numpy_prims
@@ -1012,6 +1027,44 @@ class Executor:
         if v.ty[0] not in ('list', 'arr'):
             raise Unsupported(f"enumerate/zip over {T.show(v.ty)}")
         return v, roots
+
+
+def merge_outcomes(outs, base_len):
+    """merge outcomes of the same kind (and exception type) whose states share the path
+    condition prefix pc[:base_len]; the value of a `return` travels in the pseudo-local __ret__"""
+    groups = {}
+    order = []
+    for o in outs:
+        key = (o.kind, o.exc)
+        if key not in groups:
+            groups[key] = []
+            order.append(key)
+        groups[key].append(o)
+    result = []
+    for key in order:
+        g = groups[key]
+        if len(g) == 1:
+            result.extend(g)
+            continue
+        if key[0] == 'return':
+            tys = set()
+            for o in g:
+                v = o.value if o.value is not None else NONEVAL
+                o.state.env['__ret__'] = o.state.new_cell(v)
+                o.state.asg['__ret__'] = z3.BoolVal(True)
+        try:
+            m = merge_states([o.state for o in g], base_len)
+        except Exception:
+            m = None
+        if m is None:
+            result.extend(g)
+            continue
+        if key[0] == 'return':
+            val = read_ref(m, m.env['__ret__'])
+            result.append(Outcome('return', m, value=val))
+        else:
+            result.append(Outcome(key[0], m, exc=key[1]))
+    return result
 
 
 def handler_names(h):
